@@ -217,12 +217,14 @@ def _worker(args):
         stats = Stats(mod, pid)
         for case in itertools.islice(mod.enumerated(tier, seed), shard, None, N_SHARDS):
             stats.run(case, "enumerated")
-            if stats.viol_count > 200:
-                break
+            if stats.viol_count > (200 if COLLECT else 10):
+                break           # the verdict is settled; a tree that fails this often (each hang costs the watchdog) need not be walked to the end
         for idx, (name, strategy, n) in enumerate(mod.searches(tier)):
             per = int(math.ceil(n / float(N_SHARDS)))
             if per <= 0:
                 continue
+            if stats.viol_count > 10 and not COLLECT:
+                break
             run_search(stats, name, strategy, per, mix_seed(seed, shard, idx), tier)
         return ("ok", stats.export())
     except Exception:
